@@ -703,6 +703,12 @@ static Plan musig_generate(uint64_t seed, int tier) {
         o.a = {kind, 0, (int64_t)g.range(1, 3), to_coord ? signer : 0, to_coord ? 0 : signer, (int64_t)(g.chance(1, 8) ? g.range(100, 7000) : g.range(0, 40))};
         p.ops.push_back(o);
     }
+    // in a quarter of the runs the set-up messages are slow, so nonces are requested before keys / message / tweaks are known
+    if (g.chance(1, 4)) {
+        for (int sgn = 1; sgn <= n; sgn++)
+            for (int kind = K_KEYS; kind <= K_ADAPTOR; kind++)
+                if (g.chance(2, 3)) { Op o; o.k = "nd"; o.a = {kind, 0, 1, 0, sgn, (int64_t)g.range(3, 60)}; p.ops.push_back(o); }
+    }
     // swarm: some runs are fault free, some network-only, some crash-only, some both
     int mode = (int)g.below(8);
     if (mode >= 1) add_net_faults(g, p, n, 2, mode >= 5 ? (int)g.range(3, 10) : (int)g.range(1, 3));
